@@ -463,7 +463,9 @@ class Enc:
                 vbool(e["islink"]),
                 vL([]) if d is None else vL([vB(d)]),
                 vN(self.ino_id(e["ino"])),
-                vbool((not e["islink"]) and e["nlink"] > 1)])]))
+                # hard link OF A CACHE OBJECT: workspace-to-workspace links (left behind when their cache object
+                # was collected) change their st_nlink when a sibling is removed; the model has no inode table
+                vbool((not e["islink"]) and e["nlink"] > 1 and self.ino_id(e["ino"]) != 0)])]))
         return vL(items)
 
     def cache_val(self, snap):
